@@ -46,6 +46,19 @@ CHECKS["C02"] = dict(
   note="Scheduling inside protocompile and inside the in-process bufplugin check server is not controlled; the map-seed sweep rotates all maps alike; multiClient.Check has a single delegate in these scenarios (no second plugin).",
   design="3/C02")
 
+CHECKS["C06"] = dict(
+  level="exploration", engine="enum",
+  technique="bounded-exhaustive enumeration of buf.yaml configurations against a set-algebra reference model, plus monotonicity on observed pairs",
+  text="Every configuration of a grid (use = subsets of size <=2 of a 12-id menu incl. categories and deprecated ids, except <=1, ignore in {file, directory, import file, string-prefix trap}, ignore_only, comment-ignore placements x id texts x allow on/off, versions v1beta1/v1/v2, exclude-imports) is written as buf.yaml text, parsed by buf and run through Lint / Breaking / ConfiguredRules; the result must equal the union of the singleton results of the selected rules minus exactly the suppressed annotations as computed by an independent reference model; adding a suppression must not add an annotation nor remove one outside its scope; every single-character corruption of six ids must be rejected; MINIMAL within BASIC within STANDARD; deprecated ids equal their replacements.",
+  note="One fixture image per kind; rule tables (categories, deprecations) are read from AllRules and trusted apart from the nesting/replacement checks; use/except subsets no larger than 2; plugins and multi-module configs not covered.",
+  design="3/C06")
+CHECKS["C12"] = dict(
+  level="exploration", engine="enum",
+  technique="bounded-exhaustive enumeration of (image, include set, exclude set, options) on bufimageutil.FilterImage against an independent closure model and link/diff/comment/idempotence oracles",
+  text="19 catalogue images covering every reference kind (fields, maps, oneofs, groups, nested types, extensions and extendees, custom options on every descriptor kind incl. Any payloads, RPC types, public import chains, type-less files, weak imports, second package) x every include and exclude set with |include|<=1,|exclude|<=1 plus selected pairs (thorough <=2 each) over all names of the image x option combinations. Oracles: the result links (protodesc), contains every included element with its closure (lower bound) and nothing outside the upper bound, contains no excluded element nor a reference to one, surviving elements equal the original except dropped members, comments stay on the same element (by name), filters made of existing non-contradictory names do not fail, F(F(I)) = F(I), in-place equals copying.",
+  note="FilterImage seam only (CLI --type/--exclude-type and buf generate types: not driven); set sizes above 2 not explored; one recorded known finding (weak-import source locations).",
+  design="3/C12")
+
 NOT_YET = {}
 
 def main():
